@@ -82,7 +82,7 @@ func (c *Cmd) Pos() Pos {
 	default:
 		x := c.Expr.Pos()
 		r := c.Redirs[0].Pos()
-		if x.Before(r) {
+		if !x.IsZero() && x.Before(r) {
 			return x
 		}
 		return r
